@@ -1,5 +1,6 @@
 SPECIFICATION Spec
 CONSTANT MaxCore = 2
 CONSTANT PairSeps = 3
+CONSTANT LongStarts = 4
 INVARIANT Emit
 CHECK_DEADLOCK FALSE
